@@ -2259,6 +2259,173 @@ pub(crate) mod persistence {
     }
 }
 
+/// Verification hook H3 (cargo feature `verif-hooks`): drives the private stored-origin codec
+/// (`OriginAndExtra`, packed / wide edge layouts, extra revision data) from plain descriptions.
+#[cfg(feature = "verif-hooks")]
+pub mod verif_codec {
+    use super::*;
+
+    /// `(ingredient, index, generation, is_output)`
+    pub type EdgeSpec = (u32, u32, u32, bool);
+
+    /// What the stored origin yields back.
+    #[derive(Debug, Default, Clone)]
+    pub struct Decoded {
+        /// 0 = derived, 1 = derived untracked, 2 = assigned
+        pub kind: u8,
+        pub packed: bool,
+        pub edges: Vec<EdgeSpec>,
+        pub edges_rev: Vec<EdgeSpec>,
+        pub inputs: Vec<(u32, u32, u32)>,
+        pub outputs: Vec<(u32, u32, u32)>,
+        pub has_extra: bool,
+        pub cycle_converged: bool,
+        pub tracked_ids: usize,
+        /// after `clear_edges` (non-persistence builds): `(edges left, has_extra, cycle_converged, tracked_ids)`
+        pub cleared: Option<(usize, bool, bool, usize)>,
+        /// edges after a serde_json round trip (persistence builds)
+        pub serde_edges: Option<Vec<EdgeSpec>>,
+    }
+
+    fn mk_edge(e: &EdgeSpec) -> QueryEdge {
+        // SAFETY: callers pass indices below `Id::MAX_U32`.
+        let id = unsafe { Id::from_index(e.1) }.with_generation(e.2);
+        let key = DatabaseKeyIndex::new(IngredientIndex::new(e.0), id);
+        if e.3 {
+            QueryEdge::output(key)
+        } else {
+            QueryEdge::input(key)
+        }
+    }
+
+    fn spec(e: QueryEdge) -> EdgeSpec {
+        let k = e.key();
+        (
+            k.ingredient_index().as_u32(),
+            k.key_index().index(),
+            k.key_index().generation(),
+            matches!(e.kind(), QueryEdgeKind::Output),
+        )
+    }
+
+    fn key3(k: DatabaseKeyIndex) -> (u32, u32, u32) {
+        (
+            k.ingredient_index().as_u32(),
+            k.key_index().index(),
+            k.key_index().generation(),
+        )
+    }
+
+    fn mk_extra(flags: u8) -> QueryRevisionsExtra {
+        if flags & 1 == 0 || flags & 8 != 0 {
+            return QueryRevisionsExtra(None);
+        }
+        let mut extra = QueryRevisionsExtraInner::empty();
+        fill(&mut extra, flags);
+        QueryRevisionsExtra(Some(extra))
+    }
+
+    fn fill(extra: &mut QueryRevisionsExtraInner, flags: u8) {
+        extra.cycle_converged = flags & 2 != 0;
+        if flags & 4 != 0 {
+            extra.tracked_struct_ids.push((
+                Identity::verif_new(IngredientIndex::new(3), 17, 1),
+                // SAFETY: small constant index
+                unsafe { Id::from_index(5) },
+            ));
+        }
+    }
+
+    fn decode(origin: &OriginAndExtra) -> Decoded {
+        let mut d = Decoded::default();
+        match origin.origin() {
+            QueryOriginRef::Assigned(k) => {
+                d.kind = 2;
+                d.outputs = vec![];
+                d.inputs = vec![key3(k)];
+            }
+            QueryOriginRef::Derived(edges) | QueryOriginRef::DerivedUntracked(edges) => {
+                d.kind = if origin.is_derived_untracked() { 1 } else { 0 };
+                d.packed = matches!(edges.data, QueryEdgesData::Packed(_));
+                d.edges = edges.iter().map(spec).collect();
+                d.edges_rev = edges.iter().rev().map(spec).collect();
+                d.inputs = origin.origin().inputs().map(key3).collect();
+                d.outputs = origin.origin().outputs().map(key3).collect();
+            }
+        }
+        if let Some(extra) = origin.extra() {
+            d.has_extra = true;
+            d.cycle_converged = extra.cycle_converged;
+            d.tracked_ids = extra.tracked_struct_ids.len();
+        }
+        d
+    }
+
+    /// Build a stored origin from `edges` (kind 0 = derived, 1 = derived untracked) with extra data
+    /// chosen by `flags` (bit 0: extra present, bit 1: cycle_converged, bit 2: one tracked struct id,
+    /// bit 3: the extra is inserted after construction) and report everything it yields back.
+    pub fn round_trip(kind: u8, edges: &[EdgeSpec], flags: u8) -> Decoded {
+        let qedges: Vec<QueryEdge> = edges.iter().map(mk_edge).collect();
+        let mut origin = if kind == 0 {
+            OriginAndExtra::derived(qedges.iter().copied(), mk_extra(flags))
+        } else {
+            OriginAndExtra::derived_untracked(qedges.iter().copied(), mk_extra(flags))
+        };
+        if flags & 1 != 0 && flags & 8 != 0 {
+            fill(origin.get_or_insert_extra(), flags);
+        }
+        #[allow(unused_mut)]
+        let mut d = decode(&origin);
+        #[cfg(not(feature = "persistence"))]
+        {
+            origin.clear_edges();
+            let c = decode(&origin);
+            d.cleared = Some((c.edges.len(), c.has_extra, c.cycle_converged, c.tracked_ids));
+        }
+        d
+    }
+
+    /// Serializable image of a derived origin (persistence builds): serialize / deserialize it with any
+    /// serde format and read the edges back with [`ser_origin_edges`].
+    #[cfg(feature = "persistence")]
+    #[derive(serde::Serialize, serde::Deserialize)]
+    #[serde(transparent)]
+    pub struct SerOrigin(persistence::PersistentQueryOrigin);
+
+    #[cfg(feature = "persistence")]
+    pub fn ser_origin(kind: u8, edges: &[EdgeSpec]) -> SerOrigin {
+        let qedges: Vec<QueryEdge> = edges.iter().map(mk_edge).collect();
+        SerOrigin(if kind == 0 {
+            persistence::PersistentQueryOrigin::derived(qedges)
+        } else {
+            persistence::PersistentQueryOrigin::derived_untracked(qedges)
+        })
+    }
+
+    #[cfg(feature = "persistence")]
+    pub fn ser_origin_edges(o: &SerOrigin) -> (u8, Vec<EdgeSpec>) {
+        match &o.0 {
+            persistence::PersistentQueryOrigin::Derived(e) => (0, e.iter().copied().map(spec).collect()),
+            persistence::PersistentQueryOrigin::DerivedUntracked(e) => {
+                (1, e.iter().copied().map(spec).collect())
+            }
+            persistence::PersistentQueryOrigin::Assigned(_) => (2, vec![]),
+        }
+    }
+
+    /// Assigned origin for `key`, with optional extra (same `flags`).
+    pub fn assigned_round_trip(key: (u32, u32, u32), flags: u8) -> Decoded {
+        // SAFETY: callers pass indices below `Id::MAX_U32`.
+        let id = unsafe { Id::from_index(key.1) }.with_generation(key.2);
+        let k = DatabaseKeyIndex::new(IngredientIndex::new(key.0), id);
+        let mut origin = OriginAndExtra::assigned(k);
+        if flags & 1 != 0 {
+            fill(origin.get_or_insert_extra(), flags);
+        }
+        decode(&origin)
+    }
+}
+
 #[cfg(test)]
 mod tests {
     use std::mem::size_of;
